@@ -27,7 +27,7 @@ fn cfg_for(rng: &mut Rng, rate: codec::RateKind) -> (usize, usize, usize) {
         _ => Class::Large,
     };
     let (k, r) = gen::config(rng, class, rate);
-    let size = if k.max(r) > 1000 { 2 } else { *rng.pick(&[2usize, 30, 64, 66, 130]) };
+    let size = if k.max(r) > 1000 { 2 } else { *rng.pick(&[2usize, 30, 62, 64, 66, 100, 130]) };
     (k, r, size)
 }
 
